@@ -60,13 +60,13 @@ func (sc *Scenario) runPath(path []int, battery bool) (inst Instance, vs []*Viol
 	for i, op := range path {
 		if vv := inst.Apply(op); vv != nil {
 			if i < len(path)-1 {
-				if vv.Fatal {
+				if vv.Fatal || vv.Prune {
 					return inst, []*Violation{vv}, true
 				}
 				continue // observation-only violation at a prefix: already reported there
 			}
 			vs = append(vs, vv)
-			if vv.Fatal {
+			if vv.Fatal || vv.Prune {
 				return inst, vs, false
 			}
 		}
@@ -80,6 +80,9 @@ func (sc *Scenario) runPath(path []int, battery bool) (inst Instance, vs []*Viol
 func sigList(vs []*Violation) string {
 	s := ""
 	for _, v := range vs {
+		if v.Prune {
+			continue
+		}
 		s += v.Signature + "\n"
 	}
 	return s
@@ -136,6 +139,23 @@ func (w *Worker) bfs(sc *Scenario, shardFirst bool) {
 					inst.Close()
 					w.Count("nondeterministic_prefix", 1)
 					w.Note("nondeterminism", fmt.Sprintf("scenario %s path %v diverged at a prefix that passed before: %s", sc.Name, sc.pathText(path), vs[0].Summary))
+					continue
+				}
+				pruned := false
+				{
+					kept := vs[:0]
+					for _, v := range vs {
+						if v.Prune {
+							pruned = true
+						} else {
+							kept = append(kept, v)
+						}
+					}
+					vs = kept
+				}
+				if pruned && len(vs) == 0 {
+					inst.Close()
+					w.Count("pruned_unspecified", 1)
 					continue
 				}
 				if len(vs) > 0 {
